@@ -59,7 +59,12 @@ func checkC02Cert(e *core.Entity, dec *decoded, x509Safe bool) *core.Failure {
 		return core.Failf("C02/spki-parameters", "%s: rsaEncryption without NULL", who)
 	}
 	// the public key is a well-formed key of its algorithm (EC: a point on the named curve) and the one of the stored private key
-	if _, err := xref.ParseSPKI(c.SPKIAlg, c.SPKIBits); err != nil {
+	// (a request-based certificate carries the requester's SubjectPublicKeyInfo, which may be of any algorithm: it must be that one, byte for byte)
+	if dec.Key == nil && dec.CSR != nil {
+		if !bytes.Equal(c.SPKIRaw, dec.CSR.SPKIRaw) {
+			return core.Failf("C02/spki-not-the-requests", "%s: the SubjectPublicKeyInfo %s is not the one of the certificate request %s", who, hexs(c.SPKIRaw), hexs(dec.CSR.SPKIRaw))
+		}
+	} else if _, err := xref.ParseSPKI(c.SPKIAlg, c.SPKIBits); err != nil {
 		return core.Failf("C02/spki-unreadable", "%s: subjectPublicKey is not a valid %s key: %v", who, c.SPKIAlg.OID, err)
 	}
 	if dec.Key != nil && !bytes.Equal(dec.Key.PublicBits(), c.SPKIBits) {
@@ -367,6 +372,19 @@ func TestC02(t *testing.T) {
 			c := c02Case{W: World{Ents: []core.Entity{e}}, X509Safe: field != "subject" || l <= 64}
 			r.Report("cert", c, wrap(c))
 		}
+	}
+	// certificates issued for a request (no key of gopki's own): the SubjectPublicKeyInfo is the requester's, of whatever
+	// algorithm and parameter shape; the certificate around it is held to the same rules
+	for kind := 0; kind <= 5; kind++ {
+		i++
+		if !r.Mine(i) {
+			continue
+		}
+		csr := buildCSR(der.Seq(der.Set(der.Seq(der.MustOID("2.5.4.3"), der.UTF8("requester")))), foreignSPKI(kind))
+		c := c02Case{W: World{Ents: []core.Entity{{File: "root.yaml", Subject: []core.RDN{{Key: "CN", Value: "C02 root"}}},
+			{File: "req/leaf.yaml", Subject: []core.RDN{{Key: "CN", Value: "C02 request based"}}, Issuer: "root"}},
+			Files: map[string][]byte{"req/leaf.pem": core.PemBlock("CERTIFICATE REQUEST", csr)}}}
+		r.Report("cert", c, wrap(c))
 	}
 	core.Rapid(r, "cert", r.Pick(2500, 400000), genC02, wrap)
 }
